@@ -47,6 +47,20 @@ def gen_cases(ctx):
             continue
         cases.append(("compress2", ["new c", "set %d %d" % (p["id"], p["hi"]), "c2 100000", "c2 1", "reset 1", "c2 1", "set %d %d" % (p["id"], p["lo"]), "reset 1", "c2 100000"]))
     cases.append(("compress2", ["new c", "c2 1", "reset 1", "c2 100000", "frame 100", "set 1006 1", "c2 1", "reset 1", "set 1006 0", "frame 100", "c2 100000"]))
+    # struct-level setters: one field out of bounds at a time, different frame parameters than the current ones, fresh and mid-frame
+    byid = {p["id"]: p for p in cps}
+    good = [byid[i]["lo"] + 1 for i in CP_IDS]
+    for j, pid in enumerate(CP_IDS):
+        for badv in (0, byid[pid]["hi"] + 1):
+            cp = list(good); cp[j] = badv
+            for fp in ("0 1 1", "1 0 0", "0 0 1"):
+                cases.append(("struct setters", ["new c", "setparams %s %s" % (" ".join(map(str, cp)), fp), "frame 100", "setcparams " + " ".join(map(str, cp)), "setparams %s %s" % (" ".join(map(str, good)), fp), "frame 100",
+                                                 "start", "setparams %s 1 1 0" % " ".join(map(str, good)), "setfparams 0 0 0", "end", "setfparams 0 1 1", "frame 5000"]))
+    # decoding parameters stay in force for every following frame: checksum verification on / off between frames of one context
+    for a in (0, 1):
+        for b in (0, 1):
+            cases.append(("dframe effect", ["new d", "dframe %d 0" % a, "dframe 1 0", "set 1002 1", "dframe 0 0", "dframe 1 0", "dframe %d 1" % b, "set 1002 0", "dframe 1 0", "dframe 0 0", "dframe 1 1",
+                                            "set 1002 1", "reset 1", "dframe 1 0", "reset 2", "dframe 1 0", "dframe 0 0"]))
     # unknown parameter ids
     for kind in "cpd":
         cases.append(("unknown id", ["new " + kind, "set 7 1", "set 99999 1", "set -5 0"]))
@@ -70,6 +84,8 @@ def gen_cases(ctx):
                 if p["id"] == 400 and v > 4:
                     v = rng.randint(0, 4)
                 lines.append("set %d %d" % (p["id"], v))
+            elif k < 0.60:
+                lines.append(struct_setter(rng, cps))
             elif k < 0.65:
                 lines.append("frame %d" % rng.choice([0, 1, 100, 5000, 60000]))
             elif k < 0.72:
@@ -100,12 +116,37 @@ def gen_cases(ctx):
                 lines.append("start")
             elif k < 0.8:
                 lines.append("end")
+            elif k < 0.9 and kind == "d":
+                lines.append("dframe %d %d" % (rng.randint(0, 1), rng.randint(0, 1)))
             elif k < 0.95:
                 lines.append("reset %d" % rng.randint(1, 3))
             else:
                 lines.append("dict")
         cases.append(("random %s-seq" % kind, lines))
     return cases
+
+
+CP_IDS = [101, 103, 102, 104, 105, 106, 107]
+
+
+def struct_setter(rng, cps):
+    """a call of ZSTD_CCtx_setCParams / setFParams / setParams: mostly valid fields, sometimes one field outside its bounds (0, max+1, huge)"""
+    byid = {p["id"]: p for p in cps}
+    cp = []
+    bad = rng.randrange(7) if rng.random() < 0.4 else -1
+    for j, pid in enumerate(CP_IDS):
+        p = byid[pid]
+        v = rng.randint(p["lo"], min(p["hi"], p["lo"] + 12))
+        if j == bad:
+            v = rng.choice([0, p["hi"] + 1, p["lo"] - 1, 1 << 30])
+        cp.append(max(0, v))
+    fp = [rng.choice([0, 1, 1, 7]), rng.choice([0, 1]), rng.choice([0, 1])]
+    k = rng.random()
+    if k < 0.3:
+        return "setcparams " + " ".join(map(str, cp))
+    if k < 0.5:
+        return "setfparams " + " ".join(map(str, fp))
+    return "setparams " + " ".join(map(str, cp + fp))
 
 
 def monitor(ctx, lines, couts):
@@ -146,6 +187,19 @@ def monitor(ctx, lines, couts):
                         return "set(%s,%d) accepted and read back as %d outside advertised bounds [%d,%d]" % (p["name"], v, rb, p["lo"], p["hi"])
                     if started and not (kind == "c" and p["mid"]) and kind != "p":
                         return "set(%s) accepted mid-frame although not update-authorised" % p["name"]
+        elif w[0] in ("setcparams", "setfparams", "setparams"):
+            if status.startswith("err") and vals != prev:
+                return "rejected %s changed the state (all-or-nothing contract of the struct-level setters)" % w[0]
+        elif w[0] == "dframe":
+            started = False        # the harness resets the session before and after the frame
+            idx = [i for i, p in enumerate(ps) if p["id"] == 1002]
+            ign = int(vals[idx[0]]) if idx and kind == "d" else 0
+            if w[1] == "0" and not status.startswith("ok"):
+                return "a valid checksummed frame was refused (%s) with ZSTD_d_forceIgnoreChecksum=%d in force" % (status, ign)
+            if w[1] == "1" and ign == 0 and status.startswith("ok"):
+                return "a frame with a damaged checksum was accepted although checksums are verified"
+            if w[1] == "1" and ign == 1 and not status.startswith("ok"):
+                return "ZSTD_d_forceIgnoreChecksum is set (reads back 1) but the frame's checksum was still verified: %s" % status
         elif w[0] == "start" and status == "ok" and kind != "p":
             started = True
         elif w[0] in ("end",) and status == "ok":
@@ -170,7 +224,7 @@ def monitor(ctx, lines, couts):
                 return "session-only reset changed a parameter"
         if w[0] == "c2":
             started = status != "ok"
-        if w[0] in ("start", "end", "frame", "simple", "dict", "c2") and prev is not None and vals != prev:
+        if w[0] in ("start", "end", "frame", "simple", "dict", "c2", "dframe") and prev is not None and vals != prev:
             return "%s changed a stored parameter" % w[0]
         prev = vals
     return None
